@@ -138,7 +138,8 @@ class SdSimulation():
         """
 
         ## To avoid tail-recursion, start at 0 and use memoization to store the results and build results from the bottom
-        for i in timerange(start, until+self.mod.dt, self.mod.dt):
+        # up to and including until. (until+dt, exclusive) overshoots by one step when the float sum lands above the grid point, e.g. 0.4+0.2
+        for i in timerange(start, until, self.mod.dt, exclusive=False):
             try:
                 result = self.mod.equation(equation, i)
             except KeyError:
